@@ -55,6 +55,8 @@ pub struct Profile {
     pub depths: Vec<usize>,
     /// Pick the object size limit around actual object sizes (C38).
     pub size_limits: bool,
+    /// Check the cleanup invariants and the offline run (C40).
+    pub check_cleanup: bool,
     /// Run through the server's update cycle and keep a history (C22, C34).
     pub via_server: bool,
     /// Use hostile TAL labels (C22).
@@ -63,6 +65,8 @@ pub struct Profile {
     pub refresh_swarm: bool,
     /// Chance (percent) that dubious hosts are allowed.
     pub allow_dubious_pct: u64,
+    /// Finish with a run during which the local store fails (C33).
+    pub store_fault: bool,
 }
 
 #[derive(Clone, Copy, Debug, PartialEq, Eq, PartialOrd, Ord)]
@@ -73,7 +77,7 @@ pub enum OpKind {
     CrlWrongKey, CrlGarbage, CrlNotListed, CrlMissing, CrlStale,
     Replay, NotNewer, RsyncFail, RrdpFail, AddChild, DropChild,
     CertFault, CertOverclaim, CycleCert, TaFault, RevokeChild, ExpireMftEe,
-    TalRekey, BigAspa, AspaChange,
+    TalRekey, BigAspa, AspaChange, MoveCa, CorruptArchive,
 }
 
 impl Profile {
@@ -107,10 +111,12 @@ impl Profile {
             focus: None,
             depths: vec![32],
             size_limits: false,
+            check_cleanup: false,
             via_server: false,
             hostile_labels: false,
             refresh_swarm: false,
             allow_dubious_pct: 0,
+            store_fault: false,
         }
     }
 
@@ -218,6 +224,9 @@ pub struct Sim {
     /// of creating one per run (like the one-shot commands do).
     pub reuse_engine: bool,
     pub engine: Option<Engine>,
+    /// Overwrite an RRDP archive with garbage before the next run.
+    pub corrupt_archive: bool,
+    pub store_fault_now: bool,
     /// Server-mode state.
     pub server: Option<ServerState>,
     pub tal_labels: BTreeMap<String, String>,
@@ -260,6 +269,10 @@ pub fn run(
         if sim.violations.iter().any(|v| v.class == "harness") {
             break
         }
+    }
+    if profile.store_fault && sim.violations.is_empty() {
+        sim.store_fault_now = true;
+        sim.step(profile.steps, mask);
     }
     sim.finish()
 }
@@ -327,6 +340,8 @@ impl Sim {
             exceptions_json: None,
             slurm: None,
             ta_files: BTreeMap::new(),
+            corrupt_archive: false,
+            store_fault_now: false,
             server: None,
             tal_labels: BTreeMap::new(),
             min_refresh: None,
@@ -560,6 +575,14 @@ impl Sim {
         if self.profile.size_limits && step == 0 {
             self.pick_size_limit(&transport);
         }
+        if std::mem::take(&mut self.corrupt_archive)
+            && self.profile.check_cleanup
+        {
+            let listing = self.list_cache();
+            self.corrupt_and_fail(step, &listing);
+            let _ = self.rsync.take_log();
+            let _ = self.http.take_log();
+        }
         let mut state = self.state.clone();
         let expect = model::evaluate(
             &self.files, &self.world.tals, &self.cfg, &transport, self.now,
@@ -577,9 +600,17 @@ impl Sim {
             self.crash_explore(step, &expect, &transport, state);
             return
         }
+        let before = self.profile.check_cleanup.then(|| self.list_cache());
         self.reset_perm(step);
+        if self.store_fault_now {
+            self.store_fault_run(step, &expect, &transport);
+            return
+        }
         let real = self.real_run(step);
         self.stats.steps += 1;
+        if let (Some(before), Ok(_)) = (before.as_ref(), real.as_ref()) {
+            self.check_cleanup(step, before, &state);
+        }
         match real {
             Ok((snapshot, counts)) => {
                 self.check_run(step, &expect, &snapshot, &transport);
@@ -1067,6 +1098,43 @@ impl Sim {
                         self.dirty.insert(ca);
                     }
                 }
+            }
+            MoveCa => {
+                // The CA moves to another repository: new SIA in a
+                // re-issued certificate, the old location is abandoned.
+                let parent = self.world.cas[ca].parent;
+                match parent {
+                    None => applied = false,
+                    Some(parent) => {
+                        let mut g = Gen::new(rng, self.profile.gen.clone(), now);
+                        let (host, module) = g.pick_location();
+                        let rrdp = g.rng.chance(50, 100).then(|| {
+                            g.rng.usize(self.world.repos.len())
+                        });
+                        let serial = self.world.serial();
+                        let spec = &mut self.world.cas[ca];
+                        detail = json!({
+                            "from": spec.repo_uri(),
+                            "to": format!("rsync://{host}/{module}/{}/", spec.dir),
+                            "rrdp": rrdp,
+                        });
+                        spec.host = host;
+                        spec.module = module;
+                        spec.rrdp = rrdp;
+                        spec.cert.serial = serial;
+                        self.dirty.insert(parent);
+                        self.dirty.insert(ca);
+                        // Children's certificates point at this CA's CRL and
+                        // certificate: re-issue them too.
+                        for child in self.world.cas[ca].children.clone() {
+                            self.dirty.insert(child);
+                        }
+                    }
+                }
+            }
+            CorruptArchive => {
+                // Handled right before the run.
+                self.corrupt_archive = true;
             }
             TalRekey => {
                 // The configured TAL now carries another key (a replaced
@@ -2685,4 +2753,397 @@ pub fn run_crash(
         }
     }
     sim.finish()
+}
+
+
+//------------ C33: a run during which the store fails ----------------------
+
+impl Sim {
+    /// What clients of the server see: session, serial, the data set and
+    /// the /json document (which carries the generation time).
+    fn served_fingerprint(&self) -> Option<(u64, u32, Vec<String>, Vec<u8>)> {
+        use rpki::rtr::server::{PayloadSet, PayloadSource};
+        let server = self.server.as_ref()?;
+        let (state, mut set) = server.history.full();
+        let mut data = Vec::new();
+        while let Some(item) = set.next() {
+            data.push(format!("{item:?}"));
+        }
+        let session = server.history.read().session();
+        let (_, body) = server.get("/json");
+        Some((session, u32::from(state.serial()), data, body))
+    }
+
+    fn store_fault_run(
+        &mut self, step: usize, expect: &Expect, transport: &Transport,
+    ) {
+        let mut rng = Rng::new(mix(&[self.seed, 300, step as u64]));
+        let before = self.served_fingerprint();
+        let base = self.scratch.join("cache").join("stored");
+        let mut files = Vec::new();
+        let mut stack = vec![base.clone()];
+        while let Some(dir) = stack.pop() {
+            let Ok(read) = std::fs::read_dir(&dir) else { continue };
+            for entry in read.flatten() {
+                let path = entry.path();
+                if path.is_dir() { stack.push(path) } else { files.push(path) }
+            }
+        }
+        files.sort();
+        let tas: Vec<_> = files.iter().filter(|p| {
+            p.strip_prefix(&base).map(|p| p.starts_with("ta")).unwrap_or(false)
+        }).cloned().collect();
+        // The fault: a path the store needs cannot be read or written.
+        let what = match rng.below(10) {
+            0..=3 if !tas.is_empty() => {
+                let victim = rng.pick(&tas).clone();
+                let _ = std::fs::remove_file(&victim);
+                let _ = std::fs::create_dir_all(&victim);
+                format!("stored trust anchor {} is unreadable",
+                    victim.strip_prefix(&base).unwrap().display())
+            }
+            4..=7 if !files.is_empty() => {
+                let victim = rng.pick(&files).clone();
+                let _ = std::fs::remove_file(&victim);
+                let _ = std::fs::create_dir_all(&victim);
+                format!("store file {} is unreadable",
+                    victim.strip_prefix(&base).unwrap().display())
+            }
+            _ => {
+                let tmp = base.join("tmp");
+                let _ = std::fs::remove_dir_all(&tmp);
+                let _ = std::fs::write(&tmp, b"not a directory");
+                "the store's tmp directory cannot be used".to_string()
+            }
+        };
+        self.stats.fault("StoreFault");
+        self.note(format!("step {step}: store fault: {what}"));
+        self.ops.push(json!({"step": step, "op": "store-fault", "what": what}));
+        let real = self.real_run(step);
+        self.stats.steps += 1;
+        match real {
+            Err(msg) => {
+                self.stats.probe("store-fault-run-failed");
+                self.note(format!("step {step}: run failed: {msg}"));
+                let after = self.served_fingerprint();
+                if before != after {
+                    let (b, a) = (before.unwrap(), after.unwrap());
+                    self.violation("C33", "served-changed", step, format!(
+                        "the run failed ({msg}) but the served state changed: \
+                         serial {} -> {}, {} -> {} items, session {} -> {}, \
+                         /json document {}",
+                        b.1, a.1, b.2.len(), a.2.len(), b.0, a.0,
+                        if b.3 == a.3 { "unchanged" } else { "changed" }
+                    ));
+                }
+            }
+            Ok((snapshot, _)) => {
+                // Either the path was not needed in this run -- then the
+                // result is the fault-free one -- or a failure was swallowed.
+                self.stats.probe("store-fault-run-succeeded");
+                let n = self.violations.len();
+                self.check_run(step, expect, &snapshot, transport);
+                for v in &mut self.violations[n..] {
+                    if v.class == "harness" { continue }
+                    v.message = format!(
+                        "with the fault \"{what}\" the run reported success \
+                         and published a data set that is not the one of a \
+                         successful run: [{} {}] {}",
+                        v.property, v.class, v.message
+                    );
+                    v.property = "C33";
+                    v.class = "failure-swallowed".into();
+                }
+            }
+        }
+    }
+}
+
+
+//------------ C40: cleanup --------------------------------------------------
+
+#[derive(Clone, Debug, Default)]
+pub struct CacheListing {
+    /// Stored point files: relative path -> notAfter of the manifest EE
+    /// certificate if the point has a stored manifest.
+    pub stored: BTreeMap<String, Option<i64>>,
+    /// rsync module directories that contain at least one file.
+    pub modules: BTreeSet<String>,
+    /// RRDP archive files (relative to the rrdp directory).
+    pub archives: BTreeSet<String>,
+}
+
+fn has_files(dir: &Path) -> bool {
+    let Ok(read) = std::fs::read_dir(dir) else { return false };
+    for entry in read.flatten() {
+        let path = entry.path();
+        if path.is_dir() {
+            if has_files(&path) { return true }
+        }
+        else {
+            return true
+        }
+    }
+    false
+}
+
+impl Sim {
+    pub fn list_cache(&self) -> CacheListing {
+        use routinator::store::StoredPoint;
+        let cache = self.scratch.join("cache");
+        let mut res = CacheListing::default();
+        let base = cache.join("stored");
+        let mut stack = vec![base.join("rsync"), base.join("rrdp")];
+        while let Some(dir) = stack.pop() {
+            let Ok(read) = std::fs::read_dir(&dir) else { continue };
+            for entry in read.flatten() {
+                let path = entry.path();
+                if path.is_dir() { stack.push(path); continue }
+                let rel = path.strip_prefix(&base).unwrap()
+                    .to_string_lossy().into_owned();
+                let na = StoredPoint::load_quietly(path.clone()).and_then(|p| {
+                    p.manifest().map(|m| m.not_after.timestamp())
+                });
+                res.stored.insert(rel, na);
+            }
+        }
+        if let Ok(hosts) = std::fs::read_dir(cache.join("rsync")) {
+            for host in hosts.flatten() {
+                if let Ok(modules) = std::fs::read_dir(host.path()) {
+                    for module in modules.flatten() {
+                        if has_files(&module.path()) {
+                            res.modules.insert(format!(
+                                "{}/{}",
+                                host.file_name().to_string_lossy(),
+                                module.file_name().to_string_lossy()
+                            ));
+                        }
+                    }
+                }
+            }
+        }
+        if let Ok(hosts) = std::fs::read_dir(cache.join("rrdp")) {
+            for host in hosts.flatten() {
+                if host.file_name() == "tmp" { continue }
+                if let Ok(files) = std::fs::read_dir(host.path()) {
+                    for file in files.flatten() {
+                        res.archives.insert(format!(
+                            "{}/{}",
+                            host.file_name().to_string_lossy(),
+                            file.file_name().to_string_lossy()
+                        ));
+                    }
+                }
+            }
+        }
+        res
+    }
+
+    /// Corrupts one RRDP archive, expects the run to fail (retryable) and
+    /// checks that a failed run removes nothing else.
+    fn corrupt_and_fail(&mut self, step: usize, before: &CacheListing) {
+        let Some(victim) = before.archives.iter().next().cloned() else { return };
+        let path = self.scratch.join("cache").join("rrdp").join(&victim);
+        let Ok(meta) = std::fs::metadata(&path) else { return };
+        // Keep the magic and the size, ruin the index.
+        let mut data = std::fs::read(&path).unwrap_or_default();
+        for b in data.iter_mut().skip(40).take(4000) { *b = 0xff }
+        data.truncate(meta.len() as usize);
+        if std::fs::write(&path, data).is_err() { return }
+        self.stats.fault("CorruptArchive");
+        self.ops.push(json!({"step": step, "op": "corrupt-archive", "file": victim}));
+        self.reset_perm(step);
+        match self.real_run(step) {
+            Ok(_) => {
+                // The archive was not needed or got replaced: fine.
+                self.stats.probe("corrupt-archive-run-ok");
+            }
+            Err(msg) => {
+                self.stats.probe("failed-run");
+                self.note(format!("step {step}: run failed as provoked: {msg}"));
+                let after = self.list_cache();
+                let now = self.now;
+                // Removing expired points is fine at any time (a run that
+                // fails while cleaning up has done part of the cleanup).
+                for (rel, na) in &before.stored {
+                    if matches!(na, Some(na) if *na > now)
+                        && !after.stored.contains_key(rel)
+                    {
+                        self.violation("C40", "failed-run-removed", step, format!(
+                            "a failed run removed the unexpired stored \
+                             point {rel}"
+                        ));
+                    }
+                }
+                let mut needed_modules = BTreeSet::new();
+                let mut needed_auths = BTreeSet::new();
+                for point in self.state.store.values() {
+                    if point.info.ee.na <= now { continue }
+                    match point.rpki_notify.as_ref() {
+                        Some(notify) => {
+                            needed_auths.insert(
+                                notify.trim_start_matches("https://")
+                                    .split('/').next().unwrap_or("").to_string()
+                            );
+                        }
+                        None => {
+                            needed_modules.insert(
+                                model::module_of(&point.mft_uri)
+                                    .trim_start_matches("rsync://")
+                                    .trim_end_matches('/').to_string()
+                            );
+                        }
+                    }
+                }
+                for module in &before.modules {
+                    if needed_modules.contains(module)
+                        && !after.modules.contains(module)
+                    {
+                        self.violation("C40", "failed-run-removed", step, format!(
+                            "a failed run removed rsync module {module} \
+                             used by a retained publication point"
+                        ));
+                    }
+                }
+                for archive in &before.archives {
+                    let auth = archive.split('/').next().unwrap_or("");
+                    if *archive != victim && needed_auths.contains(auth)
+                        && !after.archives.contains(archive)
+                    {
+                        self.violation("C40", "failed-run-removed", step, format!(
+                            "a failed run removed RRDP archive {archive} \
+                             used by a retained publication point"
+                        ));
+                    }
+                }
+                // What an operator / the retry logic does next.
+                let config = self.config(true);
+                if let Ok(engine) = Engine::new(&config, true) {
+                    let _ = engine.sanitize();
+                }
+                if path.exists() {
+                    if routinator::collector::RrdpArchive::verify(&path).is_err() {
+                        let _ = std::fs::remove_file(&path);
+                        self.stats.probe("corrupt-archive-survived-sanitize");
+                    }
+                }
+            }
+        }
+        // The local copy is gone now (or replaced by the provoked run).
+        if !path.exists() {
+            let auth = victim.split('/').next().unwrap_or("").to_string();
+            self.state.rrdp_copy.retain(|notify, _| {
+                notify.trim_start_matches("https://").split('/').next()
+                    != Some(auth.as_str())
+            });
+        }
+        // The engine may hold state about the failed run; start afresh.
+        self.engine = None;
+    }
+
+    fn check_cleanup(
+        &mut self, step: usize, before: &CacheListing, state_after: &ModelState
+    ) {
+        let after = self.list_cache();
+        let now = self.now;
+        // (1) unexpired stored points stay.
+        for (rel, na) in &before.stored {
+            if let Some(na) = na {
+                if *na > now && !after.stored.contains_key(rel) {
+                    self.violation("C40", "unexpired-point-removed", step, format!(
+                        "stored point {rel} removed although its manifest \
+                         certificate is valid until {na} (now {now})"
+                    ));
+                }
+            }
+        }
+        // (2) dirty: nothing at all is removed.
+        if self.cfg.dirty {
+            for rel in before.stored.keys() {
+                if !after.stored.contains_key(rel) {
+                    self.violation("C40", "dirty-removed", step, format!(
+                        "stored point {rel} removed although dirty is set"
+                    ));
+                }
+            }
+            for module in &before.modules {
+                if !after.modules.contains(module) {
+                    self.violation("C40", "dirty-removed", step, format!(
+                        "rsync module {module} removed although dirty is set"
+                    ));
+                }
+            }
+            for archive in &before.archives {
+                if !after.archives.contains(archive) {
+                    self.violation("C40", "dirty-removed", step, format!(
+                        "RRDP archive {archive} removed although dirty is set"
+                    ));
+                }
+            }
+        }
+        // (3) collector copies that retained points or this run use.
+        for module in state_after.rsync_copy.keys() {
+            let name = module.trim_start_matches("rsync://")
+                .trim_end_matches('/').to_string();
+            if state_after.rsync_copy[module].is_empty() { continue }
+            if !after.modules.contains(&name) {
+                self.violation("C40", "module-removed", step, format!(
+                    "rsync module {name} is gone although a retained \
+                     publication point or this run uses it"
+                ));
+            }
+        }
+        for notify in state_after.rrdp_copy.keys() {
+            let auth = notify.trim_start_matches("https://")
+                .split('/').next().unwrap_or("");
+            if !after.archives.iter().any(|a| a.starts_with(&format!("{auth}/"))) {
+                self.violation("C40", "archive-removed", step, format!(
+                    "the RRDP archive of {notify} is gone although a \
+                     retained publication point or this run uses it"
+                ));
+            }
+        }
+        if after.stored.len() < before.stored.len() {
+            self.stats.probe("points-cleaned");
+        }
+        if after.modules.len() < before.modules.len()
+            || after.archives.len() < before.archives.len()
+        {
+            self.stats.probe("copies-cleaned");
+        }
+        // (4) what is left is enough for an offline run.
+        let mut cfg = self.cfg.clone();
+        cfg.rsync_on = false;
+        cfg.rrdp_on = false;
+        let mut state = state_after.clone();
+        let expect = model::evaluate(
+            &self.files, &self.world.tals, &cfg, &Transport::default(),
+            self.now, &mut state
+        );
+        let mut config = self.config(false);
+        config.dirty_repository = true;
+        let offline = Engine::new(&config, false).map_err(|_| "new".to_string())
+            .and_then(|engine| {
+                ValidationReport::process(&engine, &config, false)
+                    .map_err(|e| format!("fatal={}", e.is_fatal()))
+            });
+        match offline {
+            Err(msg) => self.violation("C40", "offline-failed", step, format!(
+                "offline run after cleanup failed: {msg}"
+            )),
+            Ok((report, mut metrics)) => {
+                let exceptions = LocalExceptions::load(&config, false)
+                    .unwrap_or_else(|_| LocalExceptions::empty());
+                let snapshot = report.into_snapshot(&exceptions, &mut metrics);
+                let (real, _) = snapshot_to_set(&snapshot);
+                let want = self.apply_slurm(&expect.strict);
+                if real != want {
+                    self.violation("C40", "offline-differs", step, format!(
+                        "offline run after cleanup: unexpected {:?} missing {:?}",
+                        real.minus(&want), want.minus(&real)
+                    ));
+                }
+            }
+        }
+    }
 }
